@@ -2222,3 +2222,110 @@ def leaf_always_coerced(check: Check, repo: Repo, rule: str = "LEAF-COERCED") ->
     path = cfg.find_path(cfg.entry, lambda nd: nd in rets, follow=no_exc, avoid=lambda nd: nd in nodes)
     check.ob(rule, calls[0], "complete_leaf_value: every returned value was coerced by the leaf type", path is None,
              "the coercion call is on every path to a return" if path is None else "a value is returned uncoerced: " + cfg.describe_path(path)[-200:])
+
+
+def nulled_work_aborted(check: Check, repo: Repo, rule: str = "NULLED-ABORTED") -> None:
+    check.rule(
+        rule,
+        "IncrementalExecutor.get_incremental_work drops the execution groups and item streams whose position was nulled "
+        "by error propagation, and *stops* them: every test `has_nulled_position(<x>.path)` of the function guards a "
+        "branch that calls `.abort(...)` on the dropped element (its computation / its queue). With early execution a "
+        "dropped group is already running; filtering it out without aborting it leaves its resolvers running forever and "
+        "the sources of the streams it opened unclosed",
+    )
+    fn = repo.func("execution.incremental.incremental_executor", "IncrementalExecutor.get_incremental_work")
+    tests = [c for c in walk_body(fn) if isinstance(c, ast.Call) and call_name(c).split(".")[-1] == "has_nulled_position"]
+    if not tests:
+        raise AnalysisError("get_incremental_work: has_nulled_position tests not found")
+    for c in tests:
+        owner = next((a for a in ancestors(c) if isinstance(a, ast.If) and any(c is x for x in ast.walk(a.test))), None)
+        aborted = owner is not None and any(isinstance(x, ast.Call) and isinstance(x.func, ast.Attribute) and x.func.attr == "abort" for s in owner.body for x in ast.walk(s))
+        check.ob(rule, c, f"get_incremental_work: {unparse(c)}", aborted,
+                 "the dropped element is aborted in the same branch" if aborted else "elements at a nulled position are only filtered out, never aborted: running work and open sources are abandoned")
+    check.floor(rule, 2, "nulled-position filters (groups and streams)")
+
+
+def hook_after_drain(check: Check, repo: Repo, rule: str = "HOOK-AFTER-DRAIN") -> None:
+    from rules.language_rules import norm_facts
+
+    check.rule(
+        rule,
+        "the work-finished hook fires when *no* tracked work is left: in Executor.run_async_work_finished_hook every call "
+        "of the hook is reached under the must-fact that the set of background futures is empty (`not "
+        "background_futures` - the guard of the synchronous path, the exit condition of the waiting loop of the "
+        "asynchronous one). Work registered while the waiter sleeps (a failing non-null sibling hands its pending "
+        "sibling over to the background) must be waited for as well: a single `await wait(...)` instead of `while "
+        "background_futures:` fires the hook while tracked work is still pending",
+    )
+    fn = repo.func("execution.executor", "Executor.run_async_work_finished_hook")
+    scopes = [fn] + [f for f in ast.walk(fn) if isinstance(f, (ast.AsyncFunctionDef, ast.FunctionDef)) and f is not fn]
+    n = 0
+    for sc in scopes:
+        calls = [c for c in walk_body(sc) if isinstance(c, ast.Call) and isinstance(c.func, ast.Name) and c.func.id == "hook"]
+        if not calls:
+            continue
+        flow = FactFlow(CFG(sc))
+        for c in calls:
+            n += 1
+            facts = norm_facts(flow.facts_at(c))
+            ok = ("background_futures", False) in facts or ("self.background_futures", False) in facts
+            if not ok:  # other spellings of 'is not empty': len(x) > 0, len(x) != 0 ...
+                for t, p in facts:
+                    try:
+                        subj = _nonempty_subject(ast.parse(t, mode="eval").body)
+                    except SyntaxError:
+                        subj = None
+                    if subj == "background_futures" and p is False:
+                        ok = True
+            check.ob(rule, c, f"{qualname_of(c)}: hook(info)", ok,
+                     "only when the set of tracked futures is empty" if ok else "nothing establishes that the tracked futures are all done here")
+    if n < 2:
+        raise AnalysisError("run_async_work_finished_hook: hook calls not found")
+
+
+def advance_close_same_object(check: Check, repo: Repo, rule: str = "CLOSE-WHAT-YOU-ADVANCE") -> None:
+    check.rule(
+        rule,
+        "Executor.cancellable_iterable wraps a source: the object whose __anext__ the wrapper forwards to is the object "
+        "whose aclose it forwards to (the *iterator* obtained from __aiter__, not the iterable it came from). For an async "
+        "iterable that returns a separate iterator object, closing the iterable closes nothing: the started iterator stays "
+        "open after every early stop",
+    )
+    fn = repo.func("execution.executor", "Executor.cancellable_iterable")
+    cls = next((c for c in ast.walk(fn) if isinstance(c, ast.ClassDef)), None)
+    if cls is None:
+        raise AnalysisError("cancellable_iterable: wrapper class not found")
+    ms = {m.name: m for m in cls.body if isinstance(m, (ast.FunctionDef, ast.AsyncFunctionDef))}
+    if "__anext__" not in ms or "aclose" not in ms:
+        raise AnalysisError("cancellable_iterable: wrapper lacks __anext__ / aclose")
+    adv = {unparse(c.func.value) for c in ast.walk(ms["__anext__"]) if isinstance(c, ast.Call) and isinstance(c.func, ast.Attribute) and c.func.attr in ("__anext__",)}
+    adv |= {unparse(c.args[0]) for c in ast.walk(ms["__anext__"]) if isinstance(c, ast.Call) and call_name(c) == "anext" and c.args}
+    closed = {unparse(c.args[0]) for c in ast.walk(ms["aclose"]) if isinstance(c, ast.Call) and call_name(c) == "getattr" and len(c.args) >= 2
+              and isinstance(c.args[1], ast.Constant) and c.args[1].value == "aclose"}
+    closed |= {unparse(c.func.value) for c in ast.walk(ms["aclose"]) if isinstance(c, ast.Call) and isinstance(c.func, ast.Attribute) and c.func.attr == "aclose" and unparse(c.func.value) != "self"}
+    ok = bool(adv) and adv == closed
+    check.ob(rule, ms["aclose"], f"cancellable_iterable: advances {sorted(adv)}, closes {sorted(closed)}", ok,
+             "the same object" if ok else "the wrapper closes another object than the one it iterates")
+
+
+def cleanup_settles_pending(check: Check, repo: Repo, rule: str = "CLEANUP-SETTLES") -> None:
+    check.rule(
+        rule,
+        "StreamItemQueue._cleanup settles the item futures that are still pending on *every* normal path - whether or "
+        "not the producer task had to be cancelled first: no path from the entry to the exit avoids the call of "
+        "_settle_pending(). When the source is already exhausted the producer is done, and a cleanup that settles only "
+        "in the 'producer still running' branch leaves the early-executed items of the stream pending after it ended",
+    )
+    ci = ClassIndex(repo).get("execution.incremental.stream_item_queue", "StreamItemQueue")
+    fn = ci.methods().get("_cleanup")
+    if fn is None:
+        raise AnalysisError("StreamItemQueue._cleanup not found")
+    cfg = CFG(fn)
+    calls = [c for c in walk_body(fn) if isinstance(c, ast.Call) and call_name(c).split(".")[-1] == "_settle_pending"]
+    if not calls:
+        check.ob(rule, fn, "_cleanup settles pending item futures", False, "no call of _settle_pending()")
+        return
+    nodes = {n for c in calls for n in cfg.node_for_expr(c)}
+    path = cfg.find_path(cfg.entry, lambda nd: nd is cfg.exit, follow=no_exc, avoid=lambda nd: nd in nodes)
+    check.ob(rule, calls[0], "_cleanup: _settle_pending() on every normal path", path is None,
+             "must-pass-through" if path is None else "can be skipped: " + cfg.describe_path(path)[-180:])
